@@ -3,6 +3,7 @@ package main
 import (
 	"fmt"
 	"go/token"
+	"go/types"
 	"sort"
 	"strings"
 
@@ -45,8 +46,10 @@ func checkC18(r *Run) {
 		"lock pairing on the FileEnt mutex on every path",
 		"lockset discipline: every access to FileEnt.nref/children/Info/Data happens under that node's lock — violated at the sites listed as known findings (data races between sessions sharing the tree), every other site is checked",
 		"no explicit panic in package ramfs",
-		"no append extends a shortened view of another object's slice field (handles never write into each other's parent chains)")
-	r.NotDecided = append(r.NotDecided, "bytes read = bytes most recently written; listing contents; walk resolution; nref = number of links (model equivalence)", "race freedom beyond the lockset discipline")
+		"no append extends a shortened view of another object's slice field (handles never write into each other's parent chains)",
+		"child table: links are inserted only on the not-found edge and deleted only on the found edge of a lookup of the same name, and the helpers report success only after the change (their callers pair them with incref/decref through that result)",
+		"data placement: Read copies Data[offset:offset+k] to p[:k] and returns k; Write copies p[0:…] to Data[offset:…], appends exactly p[len(Data)-offset:] when it extends the file, stores the result back and returns len(p)")
+	r.NotDecided = append(r.NotDecided, "bytes read = bytes most recently written as a statement over histories (its structural core — where Read takes bytes from and where Write puts them, as affine slice bounds — is decided by the data-placement rule); listing contents; walk resolution; nref = number of links (model equivalence)", "race freedom beyond the lockset discipline")
 	// bounds
 	n := 0
 	for _, fn := range p.FuncsOfPkg("ramfs") {
@@ -56,6 +59,8 @@ func checkC18(r *Run) {
 	r.Floor("bounds", n, 18, "bounds obligations in ramfs")
 	checkReadWriteContract(r, p.Fn("ramfs:(*FileEnt).Read"), "return-range")
 	checkReadWriteContract(r, p.Fn("ramfs:(*FileEnt).Write"), "return-range")
+	c18DataPlacement(r)
+	c18ChildTable(r)
 	// explicit panics
 	var roots []*ssa.Function
 	for _, fn := range p.FuncsOfPkg("ramfs") {
@@ -225,4 +230,222 @@ func c18GlobalCounter(r *Run) {
 // isFieldSlice: the symbol denotes a slice stored in a struct field (of a heap object or of a by-value receiver/parameter).
 func isFieldSlice(s *Sym) bool {
 	return (s.Op == "ld" && strings.HasPrefix(s.Aux, "F:")) || s.Op == "fld"
+}
+
+// ---- data placement in FileEnt.Read / FileEnt.Write ----------------------------------------------------------------
+//
+// "reads return exactly the bytes most recently written at those positions" has a structural core that is visible in
+// the two functions' slice expressions:
+//
+//	Read : one copy, from Data[offset : offset+k] into p[:k]; the count returned is k.
+//	Write: bytes are placed by copy into Data[offset : …] from p[0:…] and, when the write extends the file, the rest
+//	       p[j:] is appended where j = len(Data) - offset (so that it lands at position len(Data) = offset + j);
+//	       the count returned is len(p) and Info.Length is refreshed from len(Data) afterwards.
+//
+// The rule compares affine forms of the slice bounds (overflow-sound), not values.
+func c18DataPlacement(r *Run) {
+	p := r.P
+	rd, wr := p.Fn("ramfs:(*FileEnt).Read"), p.Fn("ramfs:(*FileEnt).Write")
+	if rd == nil || wr == nil {
+		r.Undecided("data-placement", "FileEnt.Read/Write", token.NoPos, "anchor not found")
+		return
+	}
+	type parts struct {
+		base         ssa.Value
+		low, high    *Lin
+		hasLo, hasHi bool
+	}
+	sliceParts := func(fa *FA, v ssa.Value) (parts, bool) {
+		if sl, ok := v.(*ssa.Slice); ok {
+			ps := parts{base: sl.X, low: linConst(0)}
+			if sl.Low != nil {
+				ps.low, ps.hasLo = fa.Lin(sl.Low), true
+			}
+			if sl.High != nil {
+				ps.high, ps.hasHi = fa.Lin(sl.High), true
+			} else {
+				ps.high = fa.linSym(lenOf(fa.Sym(sl.X)), 0)
+			}
+			return ps, true
+		}
+		return parts{base: v, low: linConst(0), high: fa.linSym(lenOf(fa.Sym(v)), 0)}, true
+	}
+	isData := func(fn *ssa.Function, v ssa.Value) bool {
+		return loadsField(v, fn.Params[0], "Data")
+	}
+	paramsOf := func(fn *ssa.Function) (buf, off *ssa.Parameter) {
+		for _, prm := range fn.Params {
+			if sl, ok := prm.Type().Underlying().(*types.Slice); ok {
+				if b, ok := sl.Elem().Underlying().(*types.Basic); ok && b.Kind() == types.Uint8 {
+					buf = prm
+				}
+			}
+			if b, ok := prm.Type().Underlying().(*types.Basic); ok && b.Kind() == types.Int64 {
+				off = prm
+			}
+		}
+		return
+	}
+	// Read
+	{
+		fa := p.FA(rd)
+		buf, off := paramsOf(rd)
+		copies := findCalls(rd, "builtin copy")
+		r.Check(len(copies) == 1 && buf != nil && off != nil, "data-placement", "FileEnt.Read: exactly one copy out of the file's data", rd.Pos(), fmt.Sprintf("%d copy calls", len(copies)))
+		if len(copies) == 1 && buf != nil && off != nil {
+			c := copies[0]
+			dst, _ := sliceParts(fa, c.Call.Args[0])
+			src, _ := sliceParts(fa, c.Call.Args[1])
+			lo := fa.Lin(off)
+			okSrc := isData(rd, src.base) && src.low.Equal(lo)
+			r.Check(okSrc, "data-placement", "FileEnt.Read: the bytes come from Data starting at the requested offset", c.Pos(),
+				"the copy does not start at Data[offset]: the bytes returned are not those stored at the requested position", "source low = "+src.low.String())
+			okDst := dst.base == ssa.Value(buf) && dst.low.Equal(linConst(0))
+			r.Check(okDst, "data-placement", "FileEnt.Read: the bytes go to the start of the caller's buffer", c.Pos(), "the copy does not fill p from its start")
+			k := src.high.Sub(src.low)
+			r.Check(dst.high.Sub(dst.low).Equal(k), "data-placement", "FileEnt.Read: source and destination ranges have the same length", c.Pos(),
+				"the copy's source and destination differ in length: "+k.String()+" vs "+dst.high.Sub(dst.low).String())
+			for _, ret := range returnsOf(rd) {
+				if len(ret.Results) == 2 && isNilConst(ret.Results[1]) {
+					got := fa.Lin(ret.Results[0])
+					r.Check(got.Equal(k), "data-placement", "FileEnt.Read: the count returned is the number of bytes copied", ret.Pos(),
+						"Read reports "+got.String()+" bytes but copied "+k.String())
+				}
+			}
+		}
+	}
+	// Write
+	{
+		fa := p.FA(wr)
+		buf, off := paramsOf(wr)
+		if buf == nil || off == nil {
+			r.Undecided("data-placement", "FileEnt.Write: parameters", wr.Pos(), "buffer/offset parameters not found")
+			return
+		}
+		lo := fa.Lin(off)
+		lp := fa.linSym(lenOf(fa.Sym(buf)), 0)
+		nPlace := 0
+		for _, c := range findCalls(wr, "builtin copy") {
+			nPlace++
+			dst, _ := sliceParts(fa, c.Call.Args[0])
+			src, _ := sliceParts(fa, c.Call.Args[1])
+			r.Check(isData(wr, dst.base) && dst.low.Equal(lo), "data-placement", "FileEnt.Write: bytes are copied into Data starting at the requested offset", c.Pos(),
+				"the copy does not start at Data[offset]: bytes are stored at the wrong position", "destination low = "+dst.low.String())
+			r.Check(src.base == ssa.Value(buf) && src.low.Equal(linConst(0)), "data-placement", "FileEnt.Write: the overwritten part comes from the start of the caller's data", c.Pos(), "the copy does not read p from its start")
+		}
+		for _, c := range findCalls(wr, "builtin append") {
+			if !isData(wr, c.Call.Args[0]) {
+				continue
+			}
+			nPlace++
+			src, _ := sliceParts(fa, c.Call.Args[1])
+			// appended bytes land at position len(Data): they must be p[len(Data)-offset:]
+			want := fa.linSym(lenOf(fa.Sym(c.Call.Args[0])), 0).Sub(lo)
+			r.Check(src.base == ssa.Value(buf) && src.low.Equal(want) && !src.hasHi, "data-placement", "FileEnt.Write: the appended tail is p[len(Data)-offset:]", c.Pos(),
+				"the bytes appended are not the part of p that lies beyond the current end of the file (p["+src.low.String()+":], expected p["+want.String()+":])")
+			// and the result is stored back into Data
+			stored := false
+			for _, rf := range referrers(c) {
+				if st, ok := rf.(*ssa.Store); ok {
+					if f, ok := st.Addr.(*ssa.FieldAddr); ok && f.X == ssa.Value(wr.Params[0]) && fieldName(f.X.Type(), f.Field) == "Data" {
+						stored = true
+					}
+				}
+			}
+			r.Check(stored, "data-placement", "FileEnt.Write: the extended slice is stored back into Data", c.Pos(), "the extension is lost")
+		}
+		r.Floor("data-placement", nPlace, 3, "copy/append sites in FileEnt.Write")
+		for _, ret := range returnsOf(wr) {
+			if len(ret.Results) == 2 && isNilConst(ret.Results[1]) {
+				got := fa.Lin(ret.Results[0])
+				r.Check(got.Equal(lp), "data-placement", "FileEnt.Write: the count returned is len(p)", ret.Pos(), "Write reports "+got.String()+" instead of len(p)")
+			}
+		}
+	}
+}
+
+// ---- the child table: links are added and removed exactly when reported ---------------------------------------------
+//
+// Callers pair link_child/unlink_child with incref/decref through the helpers' error result ("If this call returns an
+// error, c.decref should be called" / "calling c.decref after this routine returns successfully"). The reference
+// counts equal the number of links only if
+//   - an insertion into FileEnt.children happens only on the not-found edge of a lookup of the same key (no silent
+//     overwrite of an existing link) and a nil error is returned only after the insertion,
+//   - a deletion happens only on the found edge of a lookup of the same key, and a nil error is returned only after
+//     a deletion on that edge (a second unlink of the same name must report failure, or the caller drops the
+//     link's reference twice).
+func c18ChildTable(r *Run) {
+	p := r.P
+	nIns, nDel := 0, 0
+	isChildren := func(v ssa.Value) bool {
+		u, ok := v.(*ssa.UnOp)
+		if !ok || u.Op != token.MUL {
+			return false
+		}
+		f, ok := u.X.(*ssa.FieldAddr)
+		return ok && strings.HasSuffix(shortType(f.X.Type()), "ramfs.FileEnt") && fieldName(f.X.Type(), f.Field) == "children"
+	}
+	edgeOf := func(fn *ssa.Function, at ssa.Instruction, key ssa.Value) (found, notFound bool) {
+		eachInstr(fn, func(in ssa.Instruction) {
+			lk, ok := in.(*ssa.Lookup)
+			if !ok || !lk.CommaOk || !isChildren(lk.X) || lk.Index != key {
+				return
+			}
+			okv := resultN(lk, 1)
+			for _, cd := range condsAtInstr(at) {
+				nc := normCond(cd)
+				if nc.V == okv {
+					if nc.Truth {
+						found = true
+					} else {
+						notFound = true
+					}
+				}
+			}
+		})
+		return
+	}
+	for _, fn := range p.FuncsOfPkg("ramfs") {
+		fn := fn
+		var ins, dels []ssa.Instruction
+		eachInstr(fn, func(in ssa.Instruction) {
+			switch x := in.(type) {
+			case *ssa.MapUpdate:
+				if isChildren(x.Map) {
+					nIns++
+					ins = append(ins, in)
+					_, nf := edgeOf(fn, in, x.Key)
+					r.Check(nf, "child-table", fnName(fn)+": a link is inserted only when the name is not present", in.Pos(),
+						"an existing link can be overwritten silently: the displaced child keeps a reference nobody will drop")
+				}
+			case *ssa.Call:
+				if b, ok := x.Call.Value.(*ssa.Builtin); ok && b.Name() == "delete" && isChildren(x.Call.Args[0]) {
+					nDel++
+					dels = append(dels, in)
+					f, _ := edgeOf(fn, in, x.Call.Args[1])
+					r.Check(f, "child-table", fnName(fn)+": a link is deleted only when it is present", in.Pos(),
+						"the helper cannot tell its caller whether a link was actually removed: a repeated unlink reports success and the caller drops the link's reference twice (nref falls below the number of links; live subtrees are torn down)")
+				}
+			}
+		})
+		if len(ins)+len(dels) == 0 || fn.Signature.Results().Len() != 1 || !isErrorType(fn.Signature.Results().At(0).Type()) {
+			continue
+		}
+		// nil is returned only after the table operation
+		for _, ret := range returnsOf(fn) {
+			if !isNilConst(ret.Results[0]) {
+				continue
+			}
+			after := false
+			for _, op := range append(ins, dels...) {
+				if instrDominates(op, ret) {
+					after = true
+				}
+			}
+			r.Check(after, "child-table", fnName(fn)+": success is reported only after the table was changed", ret.Pos(),
+				"the helper reports success on a path that did not change the child table")
+		}
+	}
+	r.Floor("child-table", nIns, 1, "insertions into FileEnt.children")
+	r.Floor("child-table", nDel, 1, "deletions from FileEnt.children")
 }
